@@ -125,7 +125,23 @@ func simpleMatches(rules []string, requests []string, matchFn ...func(m matcher)
 		return true
 	}
 
-	for _, v := range filtered {
+	if len(filtered) > 0 && filtered[0].reverse {
+		// filterRules returns either positive or inverted entries, never both.
+		// A list made only of inverted entries matches exactly what the
+		// corresponding positive list does not match: none of the entries may
+		// match, e.g. ["-pods", "-deployments"] is everything but pods and
+		// deployments.
+		positive := make([]matcher, len(filtered))
+		for i, v := range filtered {
+			positive[i] = matcher{false, v.value}
+		}
+		return !anyMatches(positive, requests, matchFn...)
+	}
+	return anyMatches(filtered, requests, matchFn...)
+}
+
+func anyMatches(matchers []matcher, requests []string, matchFn ...func(m matcher) bool) bool {
+	for _, v := range matchers {
 		for _, request := range requests {
 			if v.match(request) {
 				return true
